@@ -504,6 +504,107 @@ theorem shortcut_sound_unicode_all (env : Env) (hcw : ∀ c, env.cw c ≤ c.utf8
   shortcut_sound_firstfit_all env hcw mo o hb halg line nPrev frs hpipe
     (pipeline_lastOk_unicode env o hsep (builtin_inRange _ _ hb) line hc _ frs hpipe) hshort
 
+/-! ### every algorithm, both separators: the shortcut relative to the external contracts -/
+
+/-- the clauses of the external routines' contracts that the shortcut of one paragraph rests on
+    (each validated by the harness on every call):
+    * Unicode separator — `unicode_linebreak` returns char boundaries and no opportunity directly
+      before a space (UAX #14, LB7);
+    * optimal-fit — `nline_penalty > 0` and the recorded `smawk` rows are row minima
+      (`MoConforms`) for the paragraph's fragments and either pair of line widths. -/
+def ShortcutContracts (env : Env) (mo : MinimaOracle Int) (o : Opts) (p : Text) : Prop :=
+  (o.sep = .unicode →
+    OppsNoSpace (stripAnsi p) (env.opps (stripAnsi p)) ∧
+    ∀ o' ∈ env.opps (stripAnsi p), o' < blen (stripAnsi p) → ∃ l r, stripAnsi p = l ++ r ∧ blen l = o') ∧
+  (∀ pen, o.alg = .optimalFit pen → 0 < pen.nline ∧
+    ∀ frs, pipeline env o p (o.width - displayWidth env.cw o.subsequentIndent) = some frs →
+      ∀ nPrev : Nat, MoConforms mo pen frs
+        [if nPrev = 0 then o.width - displayWidth env.cw o.initialIndent
+         else o.width - displayWidth env.cw o.subsequentIndent,
+         o.width - displayWidth env.cw o.subsequentIndent])
+
+theorem pipeline_total (env : Env) (o : Opts) (hb : Builtin o.splitter) (line : Text) (sw : Nat)
+    (hu : o.sep = .unicode → ∀ o' ∈ env.opps (stripAnsi line), o' < blen (stripAnsi line) →
+      ∃ l r, stripAnsi line = l ++ r ∧ blen l = o') :
+    ∃ frs, pipeline env o line sw = some frs := by
+  cases hsep : o.sep with
+  | ascii =>
+    cases hp : pipeline env o line sw with
+    | none => exact absurd hp (fun h => shortcut_sound_ascii_escfree.pipeline_ascii_total env o hsep hb line _ h)
+    | some frs => exact ⟨frs, rfl⟩
+  | unicode =>
+    obtain ⟨ws, hws⟩ := findWordsUnicode_total env line (hu hsep)
+    cases hs : splitWords env o.splitter ws with
+    | none => exact absurd hs (fun h => shortcut_sound_ascii_escfree.splitWords_total env o.splitter hb ws h)
+    | some sp =>
+      unfold pipeline
+      rw [hsep]
+      simp only [findWords, hws, hs]
+      split <;> (try split) <;> exact ⟨_, rfl⟩
+
+/-- **shortcut soundness for one paragraph: every algorithm, both separators, both built-in
+    splitters, `break_words` on/off, every text** — relative to `ShortcutContracts` -/
+-- @audit TW.C05.shortcut_sound_all
+theorem shortcut_sound_all (env : Env) (hcw : ∀ c, env.cw c ≤ c.utf8Size)
+    (mo : MinimaOracle Int) (o : Opts) (hb : Builtin o.splitter) (line : Text) (nPrev : Nat)
+    (hc : ShortcutContracts env mo o line)
+    (hshort : blen line < o.width ∧ (indentOf o nPrev).isEmpty = true) :
+    (wrapSingleLineSlow env mo o line nPrev).map (·.map LineD.render) =
+      (wrapSingleLine env mo o line nPrev).map (·.map LineD.render) := by
+  obtain ⟨frs, hp⟩ := pipeline_total env o hb line (o.width - displayWidth env.cw o.subsequentIndent)
+    (fun h => (hc.1 h).2)
+  have hl : LastOk frs := by
+    cases hsep : o.sep with
+    | ascii => exact pipeline_lastOk_ascii env o hsep (builtin_inRange _ _ hb) line _ frs hp
+    | unicode => exact pipeline_lastOk_unicode env o hsep (builtin_inRange _ _ hb) line (hc.1 hsep).1 _ frs hp
+  cases halg : o.alg with
+  | firstFit => exact shortcut_sound_firstfit_all env hcw mo o hb halg line nPrev frs hp hl hshort
+  | optimalFit pen =>
+    obtain ⟨hP, hm⟩ := hc.2 pen halg
+    exact shortcut_sound_optimal_all env hcw mo o hb pen halg hP line nPrev frs hp hl (hm frs hp nPrev) hshort
+
+theorem wrapR_congr_mem (elen : Nat) (s1 s2 : Text → Nat → Option (List LineD))
+    (ps : List Text)
+    (h : ∀ p ∈ ps, ∀ n, (s1 p n).map (·.map LineD.render) = (s2 p n).map (·.map LineD.render))
+    (off n : Nat) : wrapR elen s1 ps off n = wrapR elen s2 ps off n := by
+  induction ps generalizing off n with
+  | nil => rfl
+  | cons p r ih =>
+    rw [wrapR_cons, wrapR_cons]
+    have hp := h p (by simp) n
+    have ih' := ih (fun q hq => h q (by simp [hq]))
+    cases e1 : s1 p n with
+    | none =>
+      cases e2 : s2 p n with
+      | none => rfl
+      | some l2 => rw [e1, e2] at hp; simp at hp
+    | some l1 =>
+      cases e2 : s2 p n with
+      | none => rw [e1, e2] at hp; simp at hp
+      | some l2 =>
+        rw [e1, e2] at hp
+        simp only [Option.map_some, Option.some.injEq] at hp
+        have hlen : l1.length = l2.length := by
+          have := congrArg List.length hp; simpa using this
+        simp only [hlen, hp, ih']
+
+/-- **`wrap`'s shortcut is unobservable — every algorithm, both separators**: `wrap` returns the
+    same lines with or without its byte-length shortcut, for every text whose paragraphs that are
+    shorter than the width meet the external contracts -/
+-- @audit TW.C05.wrap_shortcut_unobservable
+theorem wrap_shortcut_unobservable (env : Env) (hcw : ∀ c, env.cw c ≤ c.utf8Size)
+    (mo : MinimaOracle Int) (o : Opts) (hb : Builtin o.splitter) (text : Text)
+    (hc : ∀ p ∈ splitEnding o.lineEnding text, blen p < o.width → ShortcutContracts env mo o p) :
+    wrap env mo o text = wrapNoShortcut env mo o text := by
+  show wrapR _ (wrapSingleLine env mo o) _ 0 0 = wrapR _ (wrapSingleLineSlow env mo o) _ 0 0
+  apply wrapR_congr_mem
+  intro p hp n
+  by_cases hshort : blen p < o.width ∧ (indentOf o n).isEmpty = true
+  · exact (shortcut_sound_all env hcw mo o hb p n (hc p hp hshort.1) hshort).symm
+  · unfold wrapSingleLine
+    have : ¬ (blen p < o.width ∧ (if n = 0 then o.initialIndent else o.subsequentIndent).isEmpty = true) := hshort
+    rw [if_neg this]
+
 /-! ### coloured text: H-norm discharged for safe lines -/
 
 /-- **a safe line that fits comes back as one line, first-fit** — both separators, built-in
